@@ -1,10 +1,8 @@
 SPECIFICATION Spec
 CONSTANTS
-  DurNs = {}
-  DatePairs = {}
-  TimePairs = {}
-  DateTimePairs = {}
-  RefDay = 0
+  IntDigits = {}
+  Fracs = {}
+  Cultures = {}
 INVARIANT Report
 POSTCONDITION AllConsumed
 CHECK_DEADLOCK FALSE
